@@ -4,4 +4,7 @@
 (* TLC evaluates it for every transition, also those into known states.      *)
 EXTENDS FidTable, Json
 Emit == PrintT(ToJson(<<View, last', View'>>))
+\* sampled emission for large instances: every state-changing transition, one in Sample of the others
+CONSTANT Sample
+EmitSampled == (View' = View /\ RandomElement(1..Sample) # 1) \/ Emit
 =============================================================================
